@@ -1215,18 +1215,23 @@ class ABCPropertyGraph(ABCPropertyGraphConstants):
 
         props = self.node_sliver_to_graph_properties_dict(sliver)
         self.add_node(node_id=sliver.node_id, label=ABCPropertyGraph.CLASS_NetworkNode, props=props)
-        # if components aren't empty, add components, their network services and interfaces
-        aci = sliver.attached_components_info
-        if aci is not None:
-            for csliver in aci.devices.values():
-                self.add_component_sliver(parent_node_id=sliver.node_id,
-                                          component=csliver)
-        # if network services arent empty add them with their interfaces
-        nsi = sliver.network_service_info
-        if nsi is not None:
-            for ns in nsi.network_services.values():
-                self.add_network_service_sliver(parent_node_id=sliver.node_id,
-                                                network_service=ns)
+        try:
+            # if components aren't empty, add components, their network services and interfaces
+            aci = sliver.attached_components_info
+            if aci is not None:
+                for csliver in aci.devices.values():
+                    self.add_component_sliver(parent_node_id=sliver.node_id,
+                                              component=csliver)
+            # if network services arent empty add them with their interfaces
+            nsi = sliver.network_service_info
+            if nsi is not None:
+                for ns in nsi.network_services.values():
+                    self.add_network_service_sliver(parent_node_id=sliver.node_id,
+                                                    network_service=ns)
+        except Exception:
+            # do not leave a partially added node behind
+            self.remove_network_node_with_components_nss_cps_and_links(node_id=sliver.node_id)
+            raise
 
     def add_network_link_sliver(self, *, lsliver: NetworkLinkSliver, interfaces: List[str]):
 
@@ -1257,12 +1262,17 @@ class ABCPropertyGraph(ABCPropertyGraphConstants):
 
         props = self.component_sliver_to_graph_properties_dict(component)
         self.add_node(node_id=component.node_id, label=ABCPropertyGraph.CLASS_Component, props=props)
-        self.add_link(node_a=parent_node_id, rel=ABCPropertyGraph.REL_HAS, node_b=component.node_id)
-        nsi = component.network_service_info
-        if nsi is not None:
-            for ns in nsi.network_services.values():
-                self.add_network_service_sliver(parent_node_id=component.node_id,
-                                                network_service=ns)
+        try:
+            self.add_link(node_a=parent_node_id, rel=ABCPropertyGraph.REL_HAS, node_b=component.node_id)
+            nsi = component.network_service_info
+            if nsi is not None:
+                for ns in nsi.network_services.values():
+                    self.add_network_service_sliver(parent_node_id=component.node_id,
+                                                    network_service=ns)
+        except Exception:
+            # do not leave a partially added component behind
+            self.remove_component_with_nss_cps_and_links(node_id=component.node_id)
+            raise
 
     def add_network_service_sliver(self, *, parent_node_id: str, network_service: NetworkServiceSliver):
         """
@@ -1281,13 +1291,18 @@ class ABCPropertyGraph(ABCPropertyGraphConstants):
 
         props = self.network_service_sliver_to_graph_properties_dict(network_service)
         self.add_node(node_id=network_service.node_id, label=ABCPropertyGraph.CLASS_NetworkService, props=props)
-        if parent_node_id is not None:
-            self.add_link(node_a=parent_node_id, rel=ABCPropertyGraph.REL_HAS, node_b=network_service.node_id)
-        ii = network_service.interface_info
-        if ii is not None:
-            for i in ii.interfaces.values():
-                self.add_interface_sliver(parent_node_id=network_service.node_id,
-                                          interface=i)
+        try:
+            if parent_node_id is not None:
+                self.add_link(node_a=parent_node_id, rel=ABCPropertyGraph.REL_HAS, node_b=network_service.node_id)
+            ii = network_service.interface_info
+            if ii is not None:
+                for i in ii.interfaces.values():
+                    self.add_interface_sliver(parent_node_id=network_service.node_id,
+                                              interface=i)
+        except Exception:
+            # do not leave a partially added service behind
+            self.remove_ns_with_cps_and_links(node_id=network_service.node_id)
+            raise
 
     def add_interface_sliver(self, *, parent_node_id: str, interface: InterfaceSliver):
         """
@@ -1304,13 +1319,22 @@ class ABCPropertyGraph(ABCPropertyGraphConstants):
 
         props = self.interface_sliver_to_graph_properties_dict(interface)
         self.add_node(node_id=interface.node_id, label=ABCPropertyGraph.CLASS_ConnectionPoint, props=props)
-        if parent_node_id is not None:
-            self.add_link(node_a=parent_node_id, rel=ABCPropertyGraph.REL_CONNECTS, node_b=interface.node_id)
-        # child (sub-)interfaces the sliver carries are added under it, the way build_deep_interface_sliver reads them
-        ii = getattr(interface, 'interface_info', None)
-        if ii is not None:
-            for i in ii.interfaces.values():
-                self.add_interface_sliver(parent_node_id=interface.node_id, interface=i)
+        try:
+            if parent_node_id is not None:
+                self.add_link(node_a=parent_node_id, rel=ABCPropertyGraph.REL_CONNECTS, node_b=interface.node_id)
+            # child (sub-)interfaces the sliver carries are added under it, the way build_deep_interface_sliver reads them
+            ii = getattr(interface, 'interface_info', None)
+            if ii is not None:
+                for i in ii.interfaces.values():
+                    self.add_interface_sliver(parent_node_id=interface.node_id, interface=i)
+        except Exception:
+            # do not leave a partially added interface behind (children added so far hang off it)
+            for child in self.get_first_neighbor(node_id=interface.node_id, rel=ABCPropertyGraph.REL_CONNECTS,
+                                                 node_label=ABCPropertyGraph.CLASS_ConnectionPoint):
+                if parent_node_id is None or child != parent_node_id:
+                    self.delete_node(node_id=child)
+            self.delete_node(node_id=interface.node_id)
+            raise
 
     def get_all_ns_or_link_connection_points(self, link_id: str) -> List[str]:
         """
